@@ -441,10 +441,19 @@ impl Tracker {
                 let n = batch.batch_size();
                 t.predict(batch);
                 let mut out = vec![];
-                for _ in 0..n {
-                    let (s, tracks) = res.get();
-                    if s == scene {
-                        out = tracks;
+                let t0 = std::time::Instant::now();
+                let mut got = 0;
+                while got < n {
+                    if res.ready() {
+                        let (s, tracks) = res.get();
+                        if s == scene {
+                            out = tracks;
+                        }
+                        got += 1;
+                    } else if t0.elapsed().as_secs() > 20 {
+                        panic!("no result from the voting thread within 20 s");
+                    } else {
+                        std::thread::sleep(std::time::Duration::from_micros(200));
                     }
                 }
                 out
@@ -465,17 +474,141 @@ impl Tracker {
     }
 }
 
-fn run_visual(spec: &Spec, tables: bool, strict: bool) {
-    println!("spec {}", spec.to_line());
+/// One predict call on a visual tracker with everything the checks need printed around it: the facts of the detections,
+/// the oracle tables (when `tables`), the call line with the records, the tracks touched. None = the history stops here.
+#[allow(clippy::too_many_arguments)]
+fn visual_call(
+    tracker: &mut Tracker,
+    spec: &Spec,
+    raw_metric: &VisualMetric,
+    dict: &mut FeatDict,
+    featq: &mut HashMap<Vec<u32>, Vec<u32>>,
+    j: usize,
+    scene: &u64,
+    dets: &Vec<Det>,
+    tables: bool,
+    strict: bool,
+) -> Option<Vec<SortTrack>> {
     let k = spec.k;
-    let opts = spec.options();
-    let mut tracker = if spec.trk == "bvs" {
-        Tracker::Bvs(BatchVisualSort::new(spec.shards, 1, &opts))
+    let use_own = spec.owncol + spec.ownuse > 0.0;
+    let boxes: Vec<Universal2DBox> = dets.iter().map(bbox_of).collect();
+    // ---- facts and oracle tables, BEFORE the call, with the implementation's own public functions
+    let own: Option<Vec<f32>> = if use_own {
+        guarded(|| {
+            let refs: Vec<&Universal2DBox> = boxes.iter().collect();
+            exclusively_owned_areas_normalized_shares(refs.as_ref(), exclusively_owned_areas(refs.as_ref()).as_ref())
+        })
     } else {
-        Tracker::Vs(VisualSort::new(spec.shards, &opts))
+        None
     };
+    if use_own && own.is_none() {
+        println!("call k={} j={} scene={} epoch=0 dets= recs=OWNPANIC", k, j, scene);
+        return None;
+    }
+    let epoch = tracker.epoch(*scene) + 1;
+    let stored = tracker.tracks(spec.shards);
+    let mut det_s = vec![];
+    let mut bad = false;
+    for (i, d) in dets.iter().enumerate() {
+        let q = d.q.unwrap_or(1.0);
+        let feat: Option<Feature> = d.feat.as_ref().map(|f| Feature::from_vec(f.to_vec()));
+        if let Some(f) = &feat {
+            let key = feat_key(q, f);
+            if let Some(u) = dict.get(&key) {
+                if *u != d.uid {
+                    bad = true;
+                }
+            }
+            dict.insert(key.clone(), d.uid);
+            featq.entry(key.1).or_default().push(d.uid);
+        }
+        let attrs = match &own {
+            Some(p) => {
+                if !(0.0..=1.0).contains(&p[i]) {
+                    bad = true;
+                    VisualObservationAttributes::new(q, boxes[i].clone())
+                } else {
+                    VisualObservationAttributes::with_own_area_percentage(q, boxes[i].clone(), p[i])
+                }
+            }
+            None => VisualObservationAttributes::new(q, boxes[i].clone()),
+        };
+        let cand = tracker.candidate(u64::MAX - i as u64, attrs, feat.clone(), epoch, *scene);
+        let cobs = &cand.get_observations(0).unwrap()[0];
+        let area = cobs.attr().as_ref().unwrap().bbox_opt().as_ref().unwrap().area();
+        det_s.push(format!(
+            "{}:{}:{}:{}:{}",
+            d.uid,
+            f32b(q),
+            d.feat.is_some() as u8,
+            f32b(area),
+            own.as_ref().map(|p| f32b(p[i])).unwrap_or_else(|| "-".into())
+        ));
+        if tables {
+            for t in &stored {
+                let tobs = match t.get_observations(0) {
+                    Some(o) => o,
+                    None => continue,
+                };
+                let mut fds = vec![];
+                for o in tobs.iter() {
+                    if let (Some(cf), Some(tf)) = (cobs.feature().as_ref(), o.feature().as_ref()) {
+                        let dd = if spec.vis_cos { cosine(cf, tf) } else { euclidean(cf, tf) };
+                        let u = obs_uid(o, &dict);
+                        fds.push(format!("{}:{}", if u == u32::MAX { "?".to_string() } else { u.to_string() }, f32b(dd)));
+                    }
+                    let mq = MetricQuery {
+                        feature_class: 0,
+                        candidate_attrs: cand.get_attributes(),
+                        candidate_observation: cobs,
+                        track_attrs: t.get_attributes(),
+                        track_observation: o,
+                    };
+                    if let Some((Some(w), _)) = guarded(|| raw_metric.metric(&mq)).flatten() {
+                        println!("pos {} {} {} {} {} {}", k, j, d.uid, t.get_track_id(), f32b(w), (w * 1_000_000.0f32) as i64);
+                    }
+                }
+                if !fds.is_empty() {
+                    println!("fd {} {} {} {} {}", k, j, d.uid, t.get_track_id(), fds.join(","));
+                }
+            }
+        }
+    }
+    if bad && strict {
+        println!("call k={} j={} scene={} epoch={} dets={} recs=BADCASE", k, j, scene, epoch, det_s.join(";"));
+        return None;
+    }
+    // ---- the call itself
+    let feats: Vec<Option<Vec<f32>>> = dets.iter().map(|d| d.feat.clone()).collect();
+    let obs: Vec<VisualSortObservation> = dets
+        .iter()
+        .enumerate()
+        .map(|(i, d)| VisualSortObservation::new(feats[i].as_deref(), d.q, boxes[i].clone(), Some(d.uid as i64)))
+        .collect();
+    let recs = guarded(|| tracker.predict(*scene, &obs));
+    match &recs {
+        None => {
+            println!("call k={} j={} scene={} epoch={} dets={} recs=PANIC", k, j, scene, epoch, det_s.join(";"));
+            return None;
+        }
+        Some(recs) => {
+            let rs: Vec<String> = recs.iter().map(rec_str).collect();
+            println!("call k={} j={} scene={} epoch={} after={} dets={} recs={}", k, j, scene, epoch, tracker.epoch(*scene), det_s.join(";"), rs.join(";"));
+        }
+    }
+    // tracks touched by this call (all tracks are dumped once more at the end of the history)
+    let touched: Vec<u64> = recs.as_ref().map(|r| r.iter().map(|x| x.id).collect()).unwrap_or_default();
+    for t in tracker.tracks(spec.shards) {
+        if touched.contains(&t.get_track_id()) {
+            dump_vtrack(&format!("trk {} {}", k, j), &t, &dict, &featq);
+        }
+    }
+    recs
+}
+
+fn raw_metric_of(spec: &Spec) -> VisualMetric {
     // metric used for RAW positional values: IoU threshold disabled, visual part off
-    let raw_metric = VisualMetric {
+    VisualMetric {
         opts: Arc::new(VisualMetricOptions {
             visual_max_observations: spec.maxobs,
             visual_min_votes: spec.votes,
@@ -492,126 +625,28 @@ fn run_visual(spec: &Spec, tables: bool, strict: bool) {
             visual_minimal_own_area_percentage_collect: 0.0,
             positional_min_confidence: spec.minconf,
         }),
+    }
+}
+
+fn run_visual(spec: &Spec, tables: bool, strict: bool) {
+    println!("spec {}", spec.to_line());
+    let k = spec.k;
+    let opts = spec.options();
+    let mut tracker = if spec.trk == "bvs" {
+        Tracker::Bvs(BatchVisualSort::new(spec.shards, 1, &opts))
+    } else {
+        Tracker::Vs(VisualSort::new(spec.shards, &opts))
     };
+    let raw_metric = raw_metric_of(spec);
     let mut dict: FeatDict = HashMap::new();
     let mut featq: HashMap<Vec<u32>, Vec<u32>> = HashMap::new();
     let mut scenes: Vec<u64> = vec![];
-    let use_own = spec.owncol + spec.ownuse > 0.0;
     for (j, (scene, dets)) in spec.calls.iter().enumerate() {
         if !scenes.contains(scene) {
             scenes.push(*scene);
         }
-        let boxes: Vec<Universal2DBox> = dets.iter().map(bbox_of).collect();
-        // ---- facts and oracle tables, BEFORE the call, with the implementation's own public functions
-        let own: Option<Vec<f32>> = if use_own {
-            guarded(|| {
-                let refs: Vec<&Universal2DBox> = boxes.iter().collect();
-                exclusively_owned_areas_normalized_shares(refs.as_ref(), exclusively_owned_areas(refs.as_ref()).as_ref())
-            })
-        } else {
-            None
-        };
-        if use_own && own.is_none() {
-            println!("call k={} j={} scene={} epoch=0 dets= recs=OWNPANIC", k, j, scene);
+        if visual_call(&mut tracker, spec, &raw_metric, &mut dict, &mut featq, j, scene, dets, tables, strict).is_none() {
             break;
-        }
-        let epoch = tracker.epoch(*scene) + 1;
-        let stored = tracker.tracks(spec.shards);
-        let mut det_s = vec![];
-        let mut bad = false;
-        for (i, d) in dets.iter().enumerate() {
-            let q = d.q.unwrap_or(1.0);
-            let feat: Option<Feature> = d.feat.as_ref().map(|f| Feature::from_vec(f.to_vec()));
-            if let Some(f) = &feat {
-                let key = feat_key(q, f);
-                if let Some(u) = dict.get(&key) {
-                    if *u != d.uid {
-                        bad = true;
-                    }
-                }
-                dict.insert(key.clone(), d.uid);
-                featq.entry(key.1).or_default().push(d.uid);
-            }
-            let attrs = match &own {
-                Some(p) => {
-                    if !(0.0..=1.0).contains(&p[i]) {
-                        bad = true;
-                        VisualObservationAttributes::new(q, boxes[i].clone())
-                    } else {
-                        VisualObservationAttributes::with_own_area_percentage(q, boxes[i].clone(), p[i])
-                    }
-                }
-                None => VisualObservationAttributes::new(q, boxes[i].clone()),
-            };
-            let cand = tracker.candidate(u64::MAX - i as u64, attrs, feat.clone(), epoch, *scene);
-            let cobs = &cand.get_observations(0).unwrap()[0];
-            let area = cobs.attr().as_ref().unwrap().bbox_opt().as_ref().unwrap().area();
-            det_s.push(format!(
-                "{}:{}:{}:{}:{}",
-                d.uid,
-                f32b(q),
-                d.feat.is_some() as u8,
-                f32b(area),
-                own.as_ref().map(|p| f32b(p[i])).unwrap_or_else(|| "-".into())
-            ));
-            if tables {
-                for t in &stored {
-                    let tobs = match t.get_observations(0) {
-                        Some(o) => o,
-                        None => continue,
-                    };
-                    let mut fds = vec![];
-                    for o in tobs.iter() {
-                        if let (Some(cf), Some(tf)) = (cobs.feature().as_ref(), o.feature().as_ref()) {
-                            let dd = if spec.vis_cos { cosine(cf, tf) } else { euclidean(cf, tf) };
-                            let u = obs_uid(o, &dict);
-                            fds.push(format!("{}:{}", if u == u32::MAX { "?".to_string() } else { u.to_string() }, f32b(dd)));
-                        }
-                        let mq = MetricQuery {
-                            feature_class: 0,
-                            candidate_attrs: cand.get_attributes(),
-                            candidate_observation: cobs,
-                            track_attrs: t.get_attributes(),
-                            track_observation: o,
-                        };
-                        if let Some((Some(w), _)) = guarded(|| raw_metric.metric(&mq)).flatten() {
-                            println!("pos {} {} {} {} {} {}", k, j, d.uid, t.get_track_id(), f32b(w), (w * 1_000_000.0f32) as i64);
-                        }
-                    }
-                    if !fds.is_empty() {
-                        println!("fd {} {} {} {} {}", k, j, d.uid, t.get_track_id(), fds.join(","));
-                    }
-                }
-            }
-        }
-        if bad && strict {
-            println!("call k={} j={} scene={} epoch={} dets={} recs=BADCASE", k, j, scene, epoch, det_s.join(";"));
-            break;
-        }
-        // ---- the call itself
-        let feats: Vec<Option<Vec<f32>>> = dets.iter().map(|d| d.feat.clone()).collect();
-        let obs: Vec<VisualSortObservation> = dets
-            .iter()
-            .enumerate()
-            .map(|(i, d)| VisualSortObservation::new(feats[i].as_deref(), d.q, boxes[i].clone(), Some(d.uid as i64)))
-            .collect();
-        let recs = guarded(|| tracker.predict(*scene, &obs));
-        match &recs {
-            None => {
-                println!("call k={} j={} scene={} epoch={} dets={} recs=PANIC", k, j, scene, epoch, det_s.join(";"));
-                break;
-            }
-            Some(recs) => {
-                let rs: Vec<String> = recs.iter().map(rec_str).collect();
-                println!("call k={} j={} scene={} epoch={} after={} dets={} recs={}", k, j, scene, epoch, tracker.epoch(*scene), det_s.join(";"), rs.join(";"));
-            }
-        }
-        // tracks touched by this call (all tracks are dumped once more at the end of the history)
-        let touched: Vec<u64> = recs.as_ref().map(|r| r.iter().map(|x| x.id).collect()).unwrap_or_default();
-        for t in tracker.tracks(spec.shards) {
-            if touched.contains(&t.get_track_id()) {
-                dump_vtrack(&format!("trk {} {}", k, j), &t, &dict, &featq);
-            }
         }
     }
     for t in tracker.tracks(spec.shards) {
@@ -1364,6 +1399,9 @@ fn run_c03(spec: &Spec) {
     } else {
         Tracker::Vs(VisualSort::new(spec.shards, &opts))
     };
+    let raw_metric = raw_metric_of(spec);
+    let mut dict: FeatDict = HashMap::new();
+    let mut featq: HashMap<Vec<u32>, Vec<u32>> = HashMap::new();
     for (i, op) in spec.ops.iter().enumerate() {
         let head = op.chars().next().unwrap();
         let rest = &op[1..];
@@ -1372,42 +1410,11 @@ fn run_c03(spec: &Spec) {
                 let (sc, ds) = rest.split_once('@').unwrap();
                 let scene: u64 = sc.parse().unwrap();
                 let dets = parse_dets(ds);
-                let boxes: Vec<Universal2DBox> = dets.iter().map(bbox_of).collect();
-                let feats: Vec<Option<Vec<f32>>> = dets.iter().map(|d| d.feat.clone()).collect();
-                let obs: Vec<VisualSortObservation> = dets
-                    .iter()
-                    .enumerate()
-                    .map(|(j, d)| VisualSortObservation::new(feats[j].as_deref(), d.q, boxes[j].clone(), Some(d.uid as i64)))
-                    .collect();
-                match &mut tracker {
-                    Tracker::Vs(t) => guarded(|| t.predict_with_scene(scene, &obs)).map(|r| recs_text(&r)),
-                    Tracker::Bvs(t) => {
-                        if obs.is_empty() {
-                            Some("-".into())
-                        } else {
-                            let (mut batch, res) = PredictionBatchRequest::<VisualSortObservation>::new();
-                            for o in &obs {
-                                batch.add(scene, o.clone());
-                            }
-                            if guarded(|| t.predict(batch)).is_none() {
-                                None
-                            } else {
-                                let t0 = std::time::Instant::now();
-                                let mut out = None;
-                                loop {
-                                    if res.ready() {
-                                        let (_, tracks) = res.get();
-                                        out = Some(recs_text(&tracks));
-                                        break;
-                                    } else if t0.elapsed().as_secs() > 20 {
-                                        break;
-                                    }
-                                    std::thread::sleep(std::time::Duration::from_millis(1));
-                                }
-                                out
-                            }
-                        }
-                    }
+                if matches!(tracker, Tracker::Bvs(_)) && dets.is_empty() {
+                    Some("-".into())
+                } else {
+                    // prints the oracle tables, the call line and the touched tracks as well (used for tie detection)
+                    visual_call(&mut tracker, spec, &raw_metric, &mut dict, &mut featq, i, &scene, &dets, true, false).map(|r| recs_text(&r))
                 }
             }
             'S' => {
